@@ -18,14 +18,22 @@ EVAL_STUBS = [
 
 KANI_UNITS = {}
 
+C09_SHIM = '''
+// ---- vpv: re-export shim (verification builds only) ----
+#[cfg(any(kani, vpv_replay))]
+pub fn __vpv_compare_values(left: &Value, right: &Value, op: CompareOp) -> bool { compare_values(left, right, op) }
+'''
+
 KANI_UNITS["C08"] = dict(
     prop="C08", crate="varpulis-runtime",
     appends=[("crates/varpulis-runtime/src/engine/evaluator.rs", "__vpv_c08", "contracts/kani/c08.rs")],
-    grade="K-complete", level="proof", timeout=1500,
+    extra_appends=[("crates/varpulis-runtime/src/sase.rs", C09_SHIM)],
+    grade="K-complete", level="proof", timeout=2400, harness_timeout=600,
     functions=["varpulis-runtime/src/engine/evaluator.rs: eval_binary_op (all of Lt/Le/Gt/Ge arms)",
                "varpulis-runtime/src/engine/evaluator.rs: eval_expr_with_functions (Expr::Binary arm, ops Lt/Le/Gt/Ge; literal arms)",
-               "varpulis-runtime/src/engine/evaluator.rs: eval_pattern_expr (Expr::Binary arm + literal arms)"],
-    explanation=("48 cells = {eval_binary_op, eval_expr_with_functions, eval_pattern_expr} x {Lt,Le,Gt,Ge} x {Int,Float}^2, each a loop-free "
+               "varpulis-runtime/src/engine/evaluator.rs: eval_pattern_expr (Expr::Binary arm + literal arms)",
+               "varpulis-runtime/src/sase.rs: compare_values, values_compare (pattern-step filter kernel; through a cfg(kani) re-export shim)"],
+    explanation=("64 cells = {eval_binary_op, eval_expr_with_functions, eval_pattern_expr, sase::compare_values} x {Lt,Le,Gt,Ge} x {Int,Float}^2, each a loop-free "
                  "Kani harness over the FULL i64/f64 domain (incl. NaN, +-0, +-inf, subnormals, |int|>2^53): result == Some(Bool(op(exact "
                  "mathematical order))) and Some(Bool(false)) with a NaN; plus 4 derived cells `a>=b <=> a>b or numerically equal`. "
                  "Loop-free full-domain harnesses are complete proofs of the cell contract. Field lookup (operands coming from an event) is "
@@ -76,11 +84,7 @@ KANI_UNITS["C10"] = dict(
     assumptions=EVAL_STUBS + ["cfg(kani) re-export shim appended to optimize.rs (3 one-line wrappers)", "Value::eq is the notion of 'same value' (NaN == NaN, -0.0 == 0.0)"],
 )
 
-C09_SHIM = '''
-// ---- vpv: re-export shim (verification builds only) ----
-#[cfg(any(kani, vpv_replay))]
-pub fn __vpv_compare_values(left: &Value, right: &Value, op: CompareOp) -> bool { compare_values(left, right, op) }
-'''
+
 
 KANI_UNITS["C09"] = dict(
     prop="C09", crate="varpulis-runtime",
@@ -104,12 +108,12 @@ KANI_UNITS["C40"] = dict(
     prop="C40", crate="varpulis-core",
     appends=[("crates/varpulis-core/src/value.rs", "__vpv_c40", "contracts/kani/c40.rs")],
     grade="K-complete", level="other", timeout=2400, harness_timeout=600,
-    cell_grades={"c40_array_": "K-bounded(arrays of <= 2 elements, depth <= 2)", "_str": "K-bounded(1-character ASCII strings)"},
+    cell_grades={"c40_array_": "K-bounded(arrays of <= 2 elements, depth 1)", "_str": "K-bounded(1-character ASCII strings)"},
     functions=["varpulis-core/src/value.rs: impl PartialEq for Value (eq), float_eq, impl Hash for Value (hash)"],
     explanation=("PARTIAL (scalars complete, arrays bounded, MAPS NOT DECIDED). Per scalar variant, three symbolic values with full-domain payloads: == is reflexive, symmetric, "
                  "transitive, and a == b implies that Hash::hash feeds the SAME BYTE STREAM to a recording hasher (hence equal hashes for every hasher). A cross-kind cell "
                  "shows values of different variants are never equal, which reduces mixed transitivity to the same-kind cells. The float cell pins NaN == NaN and -0.0 == 0.0 "
-                 "together with their hash normalisation. Arrays: <= 2 scalar elements, depth <= 2 (bounded). NOT decided: the Map arm — Hash walks map.iter() in insertion order "
+                 "together with their hash normalisation. Arrays: <= 2 scalar elements, depth 1 (bounded). NOT decided: the Map arm — Hash walks map.iter() in insertion order "
                  "while IndexMap's == ignores order, so {a:1,b:2} and {b:2,a:1} are (by reading) equal with different byte streams; a Kani harness that builds two 2-entry "
                  "IndexMaps does not finish (hash-map insertion is out of CBMC's reach), so this suspected defect can be neither exhibited nor excluded here."),
     assumptions=["the recording Hasher (48-byte log) observes exactly the bytes Hash::hash writes; streams longer than 48 bytes are treated as a failed obligation, never as equal"],
@@ -136,11 +140,11 @@ KANI_UNITS["C20"] = dict(
     prop="C20", crate="varpulis-runtime",
     appends=[("crates/varpulis-runtime/src/persistence.rs", "__vpv_c20", "contracts/kani/c20.rs")],
     grade="K-complete", level="other", timeout=2400, harness_timeout=600,
-    cell_grades={"c20_array": "K-bounded(arrays of <= 2 elements, depth <= 2)", "c20_str": "K-bounded(2-byte strings)"},
+    cell_grades={"c20_array": "K-bounded(arrays of <= 2 elements, depth 1)", "c20_str": "K-bounded(2-byte strings)"},
     functions=["varpulis-runtime/src/persistence.rs: value_to_serializable, serializable_to_value (scalar, Str and Array arms)"],
     explanation=("PARTIAL (value conversion layer only). For every scalar variant with full-domain payload (floats bit-for-bit, incl. NaN payloads, +-inf, -0.0) "
                  "serializable_to_value(value_to_serializable(&v)) returns v and the intermediate SerializableValue has the matching variant and payload; 2-byte strings and arrays of "
-                 "<= 2 elements / depth <= 2 are bounded stand-ins. NOT decided: (0) the Map arms and the event field map (hash-map insertion is out of CBMC's reach); (a) the "
+                 "<= 2 elements (depth 1) are bounded stand-ins. NOT decided: (0) the Map arms and the event field map (hash-map insertion is out of CBMC's reach); (a) the "
                  "JSON / MessagePack codec and format auto-detection (serde) — so 'NaN is written as null and cannot be read back' is not decided; (b) the timestamp round trip "
                  "(timestamp_millis -> from_timestamp_millis, which by reading truncates sub-millisecond precision) needs a symbolic DateTime and chrono arithmetic is out of "
                  "CBMC's reach — reported as unchecked, not as a finding, because this machinery cannot exhibit it."),
